@@ -208,6 +208,97 @@ def probe_case(t, dk, sc, seed, out_mode="unyt"):
     return rec
 
 
+# ---------------------------------------------------------------------------------------------
+# second probe: units that CANCEL across operand groups.  All groups get the same dimension (length) in
+# distinct symbols with power-of-two scales, so that every product / quotient of operand units simplifies
+# with a numeric coefficient (k0*k1 -> 4*k0**2, k1/k0 -> 4).  A handler may attach the unsimplified or the
+# simplified unit, but the SCALE of what it attaches must be the product of the operand scales to the rule's
+# exponents (the numbers are the kernel's): kappa = units.base_value / Π scale_g**e_g must be 1.
+KSCALES = {"0": 2.0, "1": 8.0, "2": 32.0, "out": 128.0}
+# two assignments of dimensions (powers of length) to the groups, so that products (g0·g1, g1·g2, g0·g2) as well
+# as quotients (g1/g0, g2/(g0·g1) …) have a pair of factors that cancels in at least one of them
+KASSIGN = {"a": (1, -1, 1), "b": (1, 1, -1)}
+_KREG = None
+
+
+def cancel_registry():
+    global _KREG
+    if _KREG is None:
+        import unyt
+        import unyt.dimensions as D
+
+        r = unyt.UnitRegistry()
+        for tag, pw in KASSIGN.items():
+            for g in range(3):
+                r.add(f"k{tag}{g}", KSCALES[str(g)], D.length ** pw[g])
+        r.add("kout", KSCALES["out"], D.current_mks)
+        _KREG = r
+    return _KREG
+
+
+def cancel_wrap(tag, out_mode="unyt"):
+    import unyt
+
+    reg = cancel_registry()
+
+    def wrap(op):
+        d = op.data
+        if op.role == "out":
+            if out_mode == "bare":
+                return d.copy()
+            return unyt.unyt_array(d.copy(), unyt.Unit("kout", registry=reg))
+        u = unyt.Unit("dimensionless", registry=reg) if op.dimless else unyt.Unit(f"k{tag}{op.group % 3}", registry=reg)
+        if isinstance(d, np.ndarray) and d.ndim > 0:
+            return unyt.unyt_array(d.copy(), u)
+        if isinstance(d, np.ndarray):
+            return unyt.unyt_quantity(d.copy(), u)
+        return unyt.unyt_quantity(d, u)
+
+    return wrap
+
+
+def probe_kappa(t, dk, sc, seed, out_mode, rec):
+    """per unit-carrying leaf of `rec` (the symbolic probe of the same case): base_value of the unit attached
+    under a cancelling assignment divided by Π scale_g**e_g, as an exact Fraction string (the first
+    assignment under which it is not 1, else "1"); None when no cancelling run returns the same leaf
+    structure"""
+    try:
+        call = t.instantiate(dk, sc, seed)
+    except Exception:  # noqa: BLE001
+        return None
+    result = None
+    for tag in KASSIGN:
+        args, kwargs, _objs = call.materialize(cancel_wrap(tag, out_mode))
+        with warnings.catch_warnings():
+            warnings.simplefilter("ignore")
+            try:
+                r = t.invoke(args, kwargs)
+            except Exception:  # noqa: BLE001
+                continue
+        lv = _leaves(r, [])
+        if len(lv) != len(rec["leaves"]):
+            continue
+        out = []
+        for (kind, v), lf in zip(lv, rec["leaves"]):
+            if kind != "q" or not lf["carries"] or lf["expo"] is None:
+                out.append("1")
+                continue
+            want = Fraction(1)
+            ok = True
+            for sname, q in lf["expo"].items():
+                q = Fraction(q)
+                if q.denominator != 1:
+                    ok = False
+                    break
+                want *= Fraction(KSCALES[sname[1:]]) ** int(q)
+            out.append(fstr(Fraction(float(v.units.base_value)) / want) if ok else "1")
+        if result is None:
+            result = out
+        else:
+            result = [x if x != "1" else y for x, y in zip(result, out)]
+    return result
+
+
 def form_of(rec):
     """identity of a call form: operands with their groups + flags"""
     return ",".join(f"{n}:{g}" for n, g in rec["operands"]) + ";" + ",".join(f"{n}={v}" for n, v in rec["flags"])
